@@ -173,13 +173,18 @@ pub fn scenarios(prop: &str, tier: &str) -> Vec<Arc<dyn Scenario>> {
                     for del in [false, true] {
                         let w = if del { Op::Del { k } } else { Op::Put { k, big: false } };
                         al.extra.push(Op::Seq {
-                            ops: vec![w, Op::Flush { w: Wm::Tight }, Op::Leveled { w: Wm::Tight, p: 0 }],
+                            ops: vec![w.clone(), Op::Flush { w: Wm::Tight }, Op::Leveled { w: Wm::Tight, p: 0 }],
                         });
+                        // ... or only flushed (several L0 runs build up)
+                        al.extra.push(Op::Seq { ops: vec![w, Op::Flush { w: Wm::Tight }] });
                     }
                 }
+                // a wide table holding a put and a delete at its two ends
+                al.extra.push(Op::Seq { ops: vec![Op::Batch { puts: vec![0], dels: vec![2] }, Op::Flush { w: Wm::Tight }] });
+                al.extra.push(Op::Seq { ops: vec![Op::Batch { puts: vec![2], dels: vec![0] }, Op::Flush { w: Wm::Tight }] });
                 al.reopen = true;
                 let bd = if quick { bs(4, 0, 0, 1, 0) } else { bs(5, 0, 0, 1, 0) };
-                v.push(std(&format!("{prop}-loop-k3"), TreeCfg::small(keys_abc()), al, bd, seeds_upto(2), oracle));
+                v.push(std(&format!("{prop}-loop-k3"), TreeCfg::small(keys_abc()), al, bd, seeds_upto(1), oracle));
                 if !quick {
                     let mut af = Alphabet::default();
                     af.put_f = true;
